@@ -9,6 +9,7 @@ mod e_convert;
 mod e_handler;
 mod e_hasher;
 mod e_incoming;
+mod e_net;
 mod e_prefix;
 mod e_server;
 mod e_wantlist;
@@ -55,6 +56,7 @@ fn run_engine(engine: &str, seed: u64, n: usize, tier: &str) {
         "codec" => e_codec::run(seed, n, tier),
         "server" => e_server::run(seed, n, tier),
         "client" => e_client::run(seed, n, tier),
+        "net" => e_net::run(seed, n, tier),
         "handler" => e_handler::run_client(seed, n, tier),
         "srvhandler" => e_handler::run_server(seed, n, tier),
         "wantlist" => e_wantlist::run(seed, n, tier),
